@@ -1,0 +1,21 @@
+//go:build verif
+// +build verif
+
+package cli
+
+import "io"
+
+// VerifSwap replaces the package level streams and exit function and returns a function restoring them.
+func VerifSwap(out, err io.Writer, exit func(int)) (restore func()) {
+	oo, oe, ox := stdOut, stdErr, exiter
+	if out != nil {
+		stdOut = out
+	}
+	if err != nil {
+		stdErr = err
+	}
+	if exit != nil {
+		exiter = exit
+	}
+	return func() { stdOut, stdErr, exiter = oo, oe, ox }
+}
